@@ -152,6 +152,8 @@ def judge(r, nbytes):
     if rep:
         return "%s:%s" % rep, "sanitizer report (%s) in %s; %s" % (rep[0], rep[1], r.status)
     if r.timeout:
+        if getattr(r, "flood", False):
+            return "unbounded-output", "stopped after printing more than %d MB for %d bytes of input (cpu %.1f s)" % (F.OUTPUT_CAP >> 20, nbytes, r.cpu)
         if r.cpu_exceeded:
             return "hang", "still running after %.0f s of CPU (ceiling %.0f s for %d bytes)" % (r.cpu, ceiling(nbytes), nbytes)
         return "inconclusive-wall-guard", "wall-clock guard hit after %.1f s of CPU (machine load); not a verdict" % r.cpu
@@ -269,6 +271,11 @@ def campaign_chunk(arg):
     probes = {}
     try:
         for rs in rseeds:
+            if len(fails) >= 25:
+                # this tree fails wholesale: enough material for the verdict, the rest of the chunk would only burn time
+                # (every sanitizer report costs a symbolizer start)
+                ev.bump("cases-not-run-after-25-failures-in-one-worker", 1)
+                continue
             rnd = random.Random(rs)
             kind, data, tool, opts = gen_case(rnd, seeds, big_seeds)
             text = data.decode("latin-1")
@@ -377,7 +384,15 @@ def recheck(f, sc=None):
             sc.close()
 
 
-def minimise(f, budget=250):
+def same_bucket(v, sig):
+    if v is None:
+        return False
+    if sig == F9_SIG:
+        return v[0].startswith("signal-")
+    return v[0] == sig
+
+
+def minimise(f, budget=100):
     """line-level then chunk-level ddmin keeping the same bucket"""
     sig = f["sig"]
     data = f["data"]
@@ -390,8 +405,7 @@ def minimise(f, budget=250):
             return False
         g = dict(f)
         g["data"] = d
-        v = recheck(g, sc)
-        return v is not None and v[0] == sig
+        return same_bucket(recheck(g, sc), sig)
     try:
         if len(data) > 300000:
             return data
@@ -514,21 +528,28 @@ def main(tier, seed):
     for f in fails:
         by_sig.setdefault(f["sig"], []).append(f)
     ev.extra["buckets"] = {s: len(v) for s, v in sorted(by_sig.items())}
+    reported = 0
     for sig in sorted(by_sig):
         fs = sorted(by_sig[sig], key=lambda f: len(f["data"]))
         k = findings.match(PROP, sig)
         if k:
             ev.known_hit(k["id"], len(fs))
             continue
+        if reported >= 10:
+            ev.violations += 1
+            ev.bump("violations-not-minimised")
+            rc = max(rc, 1)
+            continue
+        reported += 1
         f = dict(fs[0])
         if sig == "hang" or sig.startswith("superlinear"):
-            ok = all((recheck(f) or ("",))[0] == sig for _ in range(3)) if sig == "hang" else True
+            ok = all(same_bucket(recheck(f), sig) for _ in range(3)) if sig == "hang" else True
         else:
             try:
                 f["data"] = minimise(f)
             except Exception as e:
                 ev.inconclusive.append("minimisation failed: %s" % e)
-            ok = all((recheck(f) or ("",))[0] == sig for _ in range(3))
+            ok = all(same_bucket(recheck(f), sig) for _ in range(3))
         if not ok:
             ev.inconclusive.append("failure did not reproduce 3x alone: %s %s" % (sig, f["what"][:200]))
             continue
